@@ -78,6 +78,33 @@ def plus_const(n, var):
     return const_int(n.right)
 
 
+def regex_ast(pattern):
+    """the parsed pattern (re's own parser) as a canonical string: two spellings of the same regular
+    expression (`]` / `\\]`, `+` / `{1,}`, ...) give the same tree; `[0-9]` and `\\d` do NOT (a str pattern's
+    \\d matches every Unicode digit).  No inline flags."""
+    try:
+        import re._parser as P, re._constants as C
+    except ImportError:                     # Python < 3.11
+        import sre_parse as P, sre_constants as C
+    try:
+        tree = P.parse(pattern)
+    except Exception as e:
+        raise TranslateError('RE_HTTP_ARRAY_INDEX does not parse: %s' % e)
+    need(tree.state.flags & ~C.SRE_FLAG_UNICODE == 0, 'inline flags in RE_HTTP_ARRAY_INDEX')
+
+    def dump(x):
+        if isinstance(x, P.SubPattern):
+            return '[' + ', '.join(dump(i) for i in x) + ']'
+        if isinstance(x, (list, tuple)):
+            return '(' + ' '.join(dump(i) for i in x) + ')'
+        if x is C.MAXREPEAT:
+            return 'inf'
+        if x is None:
+            return 'None'
+        return str(x)
+    return dump(tree)
+
+
 def tr_s2cmi(fn):
     need([a.arg for a in fn.args.args] == ['m', 'nidx'], '_s2cmi arguments')
     body = strip_doc(fn.body)
@@ -136,28 +163,76 @@ def subscript0(n, var):
 
 
 def tr_natural_key(mod):
-    """True iff _natural_key exists and is RE.split(k) with the odd positions converted by int()"""
+    """_natural_key as a Gallina function from the list RE.split(k) returns to the key (None if the function
+    does not exist).  Two idioms, local names free:
+      X = RE.split(k); X[1::2] = [int(v) for v in X[1::2]]; return X             -> conv_slice
+      X = RE.split(k); return [int(p) if <c(i)> else p for i, p in enumerate(X)]  -> conv_enum (fun i => c)
+    (also with the two arms of the conditional swapped; c is i % 2 as a truth value or compared with 0/1).
+    coq/C03/SourceTie.v proves either equal to conv_slice, the conversion the model transcribes."""
     try:
         fn = find_def(mod.body, '_natural_key')
     except TranslateError:
         return None
+    need(len(fn.args.args) == 1, '_natural_key: one argument')
+    karg = fn.args.args[0].arg
     body = strip_doc(fn.body)
-    need(len(body) == 3, '_natural_key: 3 statements expected')
-    s0, s1, s2 = body
-    need(isinstance(s0, ast.Assign) and name_of(s0.targets[0], ['retval']) and isinstance(s0.value, ast.Call)
-         and isinstance(s0.value.func, ast.Attribute) and s0.value.func.attr == 'split'
+    need(len(body) >= 2, '_natural_key: at least two statements')
+    s0 = body[0]
+    need(isinstance(s0, ast.Assign) and len(s0.targets) == 1 and isinstance(s0.targets[0], ast.Name)
+         and isinstance(s0.value, ast.Call) and isinstance(s0.value.func, ast.Attribute) and s0.value.func.attr == 'split'
          and isinstance(s0.value.func.value, ast.Name) and s0.value.func.value.id == 'RE_HTTP_ARRAY_INDEX'
-         and len(s0.value.args) == 1 and name_of(s0.value.args[0], ['k']), '_natural_key: retval = RE.split(k)')
+         and len(s0.value.args) == 1 and not s0.value.keywords and getattr(s0.value.args[0], 'id', None) == karg,
+         '_natural_key: X = RE_HTTP_ARRAY_INDEX.split(k)')
+    X = s0.targets[0].id
 
     def odd(n):
-        return isinstance(n, ast.Subscript) and isinstance(n.value, ast.Name) and n.value.id == 'retval' \
+        return isinstance(n, ast.Subscript) and getattr(n.value, 'id', None) == X \
             and isinstance(n.slice, ast.Slice) and isinstance(n.slice.lower, ast.Constant) and n.slice.lower.value == 1 \
             and n.slice.upper is None and isinstance(n.slice.step, ast.Constant) and n.slice.step.value == 2
-    need(isinstance(s1, ast.Assign) and odd(s1.targets[0]) and isinstance(s1.value, ast.ListComp)
-         and is_call(s1.value.elt, 'int') and len(s1.value.generators) == 1 and odd(s1.value.generators[0].iter)
-         and not s1.value.generators[0].ifs, '_natural_key: retval[1::2] = [int(i) for i in retval[1::2]]')
-    need(isinstance(s2, ast.Return) and name_of(s2.value, ['retval']), '_natural_key: return retval')
-    return True
+
+    def int_of(n, v):
+        return is_call(n, 'int') and len(n.args) == 1 and not n.keywords and getattr(n.args[0], 'id', None) == v
+    if len(body) == 3:
+        s1, s2 = body[1], body[2]
+        need(isinstance(s1, ast.Assign) and len(s1.targets) == 1 and odd(s1.targets[0]) and isinstance(s1.value, ast.ListComp)
+             and len(s1.value.generators) == 1 and not s1.value.generators[0].ifs and odd(s1.value.generators[0].iter)
+             and isinstance(s1.value.generators[0].target, ast.Name)
+             and int_of(s1.value.elt, s1.value.generators[0].target.id), '_natural_key: X[1::2] = [int(v) for v in X[1::2]]')
+        need(isinstance(s2, ast.Return) and getattr(s2.value, 'id', None) == X, '_natural_key: return X')
+        return 'conv_slice'
+    need(len(body) == 2 and isinstance(body[1], ast.Return) and isinstance(body[1].value, ast.ListComp),
+         '_natural_key: return [... for i, p in enumerate(X)]')
+    lc = body[1].value
+    need(len(lc.generators) == 1 and not lc.generators[0].ifs, '_natural_key: one generator without filter')
+    g = lc.generators[0]
+    need(is_call(g.iter, 'enumerate') and len(g.iter.args) == 1 and not g.iter.keywords and getattr(g.iter.args[0], 'id', None) == X
+         and isinstance(g.target, ast.Tuple) and len(g.target.elts) == 2 and all(isinstance(e, ast.Name) for e in g.target.elts),
+         '_natural_key: for i, p in enumerate(X)')
+    iv, pv = g.target.elts[0].id, g.target.elts[1].id
+    need(isinstance(lc.elt, ast.IfExp), '_natural_key: conditional element')
+
+    def mod2(n):
+        return isinstance(n, ast.BinOp) and isinstance(n.op, ast.Mod) and getattr(n.left, 'id', None) == iv \
+            and isinstance(n.right, ast.Constant) and n.right.value == 2
+
+    def cond(t):
+        if mod2(t):
+            return 'negb (i mod 2 =? 0)'
+        if isinstance(t, ast.Compare) and len(t.ops) == 1 and mod2(t.left) and isinstance(t.comparators[0], ast.Constant) \
+                and t.comparators[0].value in (0, 1) and type(t.ops[0]) in (ast.Eq, ast.NotEq):
+            c = '(i mod 2 =? %d)' % t.comparators[0].value
+            return c if isinstance(t.ops[0], ast.Eq) else 'negb %s' % c
+        if isinstance(t, ast.UnaryOp) and isinstance(t.op, ast.Not):
+            return 'negb (%s)' % cond(t.operand)
+        raise TranslateError('_natural_key: index test not recognised: %s' % ast.unparse(t))
+    c = cond(lc.elt.test)
+    if int_of(lc.elt.body, pv) and getattr(lc.elt.orelse, 'id', None) == pv:
+        pass
+    elif int_of(lc.elt.orelse, pv) and getattr(lc.elt.body, 'id', None) == pv:
+        c = 'negb (%s)' % c
+    else:
+        raise TranslateError('_natural_key: element is not int(p) / p: %s' % ast.unparse(lc.elt))
+    return 'conv_enum (fun i : Z => %s)' % c
 
 
 def tr_sort(mod, fn):
@@ -178,7 +253,7 @@ def tr_sort(mod, fn):
     if subscript0(lam.body, a):
         return False
     if is_call(lam.body, '_natural_key') and len(lam.body.args) == 1 and subscript0(lam.body.args[0], a):
-        need(tr_natural_key(mod) is True, 'sorted key uses _natural_key but the function is missing')
+        need(tr_natural_key(mod) is not None, 'sorted key uses _natural_key but the function is missing')
         return True
     raise TranslateError('sorted key not recognised: %s' % ast.dump(lam.body))
 
@@ -361,29 +436,109 @@ def tr_sti(repo):
 
 
 def tr_parse_qs(repo):
+    """_parse_qs: the separators of the pair generator and, for the loop body, the way one pair is cut into name and
+    value, as a Gallina function (local names free):
+      NV = X.split(C, 1); if len(NV) != 2: NV.append(None); name = unquote(NV[0].replace(P, S));
+      value = None; if NV[1] is not None: value = unquote(NV[1].replace(P, S))                 -> cut_by_split C
+      A, E, B = X.partition(C); name = unquote(A.replace(P, S));
+      if E: value = unquote(B.replace(P, S)) else: value = None                                -> cut_by_partition C
+    an empty pair is skipped (`X is None or len(X) == 0`, `len(X) == 0`, `not X`, `X == ''`), and the value is
+    appended to the list of its name (created on first sight).  SourceTie.v proves either cut equal to the model's."""
     mod = ast.parse(open(os.path.join(repo, 'spyne/server/wsgi.py')).read())
     fn = find_def(mod.body, '_parse_qs')
-    seps, eq, repl, unq = [], [], [], 0
-    for n in ast.walk(fn):
-        if isinstance(n, ast.Call) and isinstance(n.func, ast.Attribute):
-            if n.func.attr == 'split':
-                need(all(isinstance(a, ast.Constant) for a in n.args), 'split arguments are literals')
-                if len(n.args) == 1:
-                    seps.append(n.args[0].value)
-                else:
-                    need(len(n.args) == 2 and n.args[1].value == 1, "split('=', 1)")
-                    eq.append(n.args[0].value)
-            elif n.func.attr == 'replace':
-                need(len(n.args) == 2 and all(isinstance(a, ast.Constant) for a in n.args), 'replace literals')
-                repl.append((n.args[0].value, n.args[1].value))
-        if is_call(n, 'unquote'):
-            unq += 1
-    need(sorted(seps) == sorted(set(seps)) and len(seps) == 2 and all(isinstance(s, str) and len(s) == 1 for s in seps),
-         '_parse_qs: two one-character separators expected, got %r' % seps)
-    need(len(eq) == 1 and len(eq[0]) == 1, "_parse_qs: one split(<char>, 1)")
-    need(len(set(repl)) == 1 and len(repl) == 2 and all(len(x) == 1 for x in repl[0]), "_parse_qs: replace('+', ' ') on name and value")
-    need(unq == 2, '_parse_qs: unquote on name and value')
-    return sorted(ord(s) for s in seps), ord(eq[0]), (ord(repl[0][0]), ord(repl[0][1]))
+    need(len(fn.args.args) == 1, '_parse_qs: one argument')
+    body = strip_doc(fn.body)
+    # the generator of the pairs: two nested one-character splits of the argument
+    seps = []
+    for n in ast.walk(body[0]):
+        if isinstance(n, ast.Call) and isinstance(n.func, ast.Attribute) and n.func.attr == 'split':
+            need(len(n.args) == 1 and isinstance(n.args[0], ast.Constant) and isinstance(n.args[0].value, str)
+                 and len(n.args[0].value) == 1, '_parse_qs: one-character separators')
+            seps.append(n.args[0].value)
+    need(isinstance(body[0], ast.Assign) and isinstance(body[0].value, ast.GeneratorExp) and len(body[0].value.generators) == 2
+         and len(seps) == 2 and len(set(seps)) == 2, '_parse_qs: pairs = (s2 for s1 in qs.split(a) for s2 in s1.split(b))')
+    pairs_var = body[0].targets[0].id
+    loops = [n for n in body if isinstance(n, ast.For)]
+    need(len(loops) == 1 and getattr(loops[0].iter, 'id', None) == pairs_var and isinstance(loops[0].target, ast.Name)
+         and not loops[0].orelse, '_parse_qs: one loop over the pairs')
+    X = loops[0].target.id
+    st = list(loops[0].body)
+    U = ast.unparse
+
+    # 1. skip the empty pair
+    need(st and isinstance(st[0], ast.If) and not st[0].orelse and len(st[0].body) == 1 and isinstance(st[0].body[0], ast.Continue)
+         and U(st[0].test) in ('%s is None or len(%s) == 0' % (X, X), 'len(%s) == 0' % X, 'not %s' % X, "%s == ''" % X),
+         '_parse_qs: skip of the empty pair not recognised: %s' % (U(st[0].test) if st else ''))
+    st = st[1:]
+
+    def decoded(n):
+        """unquote(V.replace(P, S)) -> (V as source text, P, S)"""
+        need(is_call(n, 'unquote') and len(n.args) == 1 and isinstance(n.args[0], ast.Call)
+             and isinstance(n.args[0].func, ast.Attribute) and n.args[0].func.attr == 'replace' and len(n.args[0].args) == 2
+             and all(isinstance(a, ast.Constant) and isinstance(a.value, str) and len(a.value) == 1 for a in n.args[0].args),
+             '_parse_qs: unquote(<part>.replace(<char>, <char>)) expected: %s' % U(n))
+        return U(n.args[0].func.value), n.args[0].args[0].value, n.args[0].args[1].value
+
+    def assign(n):
+        need(isinstance(n, ast.Assign) and len(n.targets) == 1, '_parse_qs: assignment expected: %s' % U(n))
+        return n.targets[0], n.value
+    t0, v0 = assign(st[0])
+    need(isinstance(v0, ast.Call) and isinstance(v0.func, ast.Attribute) and getattr(v0.func.value, 'id', None) == X,
+         '_parse_qs: the pair is cut by a method of the pair itself')
+    if v0.func.attr == 'split':
+        need(isinstance(t0, ast.Name) and len(v0.args) == 2 and isinstance(v0.args[0], ast.Constant) and len(v0.args[0].value) == 1
+             and isinstance(v0.args[1], ast.Constant) and v0.args[1].value == 1, "_parse_qs: NV = X.split(<char>, 1)")
+        NV, cut = t0.id, v0.args[0].value
+        need(isinstance(st[1], ast.If) and not st[1].orelse and U(st[1].test) == 'len(%s) != 2' % NV and len(st[1].body) == 1
+             and U(st[1].body[0]) == '%s.append(None)' % NV, '_parse_qs: if len(NV) != 2: NV.append(None)')
+        tn, vn = assign(st[2])
+        need(isinstance(tn, ast.Name), '_parse_qs: name = ...')
+        part, P1, S1 = decoded(vn)
+        need(part == '%s[0]' % NV, '_parse_qs: the name is NV[0]')
+        tv, vv = assign(st[3])
+        need(isinstance(tv, ast.Name) and isinstance(vv, ast.Constant) and vv.value is None, '_parse_qs: value = None')
+        need(isinstance(st[4], ast.If) and not st[4].orelse and U(st[4].test) == '%s[1] is not None' % NV and len(st[4].body) == 1,
+             '_parse_qs: if NV[1] is not None')
+        tv2, vv2 = assign(st[4].body[0])
+        part2, P2, S2 = decoded(vv2)
+        need(getattr(tv2, 'id', None) == tv.id and part2 == '%s[1]' % NV, '_parse_qs: value = unquote(NV[1]...)')
+        name_var, value_var, rest, idiom = tn.id, tv.id, st[5:], 'cut_by_split'
+    elif v0.func.attr == 'partition':
+        need(isinstance(t0, ast.Tuple) and len(t0.elts) == 3 and all(isinstance(e, ast.Name) for e in t0.elts)
+             and len({e.id for e in t0.elts}) == 3
+             and len(v0.args) == 1 and isinstance(v0.args[0], ast.Constant) and len(v0.args[0].value) == 1,
+             '_parse_qs: A, E, B = X.partition(<char>)')
+        A, E, B = [e.id for e in t0.elts]
+        cut = v0.args[0].value
+        tn, vn = assign(st[1])
+        part, P1, S1 = decoded(vn)
+        need(isinstance(tn, ast.Name) and part == A and tn.id != E and tn.id != B, '_parse_qs: name = unquote(A.replace(..))')
+        i = st[2]
+        need(isinstance(i, ast.If) and U(i.test) == E and len(i.body) == 1 and len(i.orelse) == 1, '_parse_qs: if E: ... else: ...')
+        tv, vv = assign(i.body[0])
+        part2, P2, S2 = decoded(vv)
+        te, ve = assign(i.orelse[0])
+        need(isinstance(tv, ast.Name) and part2 == B and getattr(te, 'id', None) == tv.id
+             and isinstance(ve, ast.Constant) and ve.value is None and tv.id != tn.id, '_parse_qs: value = unquote(B...) / None')
+        name_var, value_var, rest, idiom = tn.id, tv.id, st[3:], 'cut_by_partition'
+    else:
+        raise TranslateError('_parse_qs: the pair is cut by .%s' % v0.func.attr)
+    need((P1, S1) == (P2, S2), '_parse_qs: the same replace() on name and value')
+    # 3. accumulation: L = retval.get(name, None); if L is None: L = retval[name] = []; L.append(value)
+    need(len(rest) == 3, '_parse_qs: three accumulation statements expected, got %d' % len(rest))
+    tl, vl = assign(rest[0])
+    need(isinstance(tl, ast.Name) and isinstance(vl, ast.Call) and isinstance(vl.func, ast.Attribute) and vl.func.attr == 'get'
+         and isinstance(vl.func.value, ast.Name) and U(vl) in ('%s.get(%s, None)' % (vl.func.value.id, name_var),
+                                                               '%s.get(%s)' % (vl.func.value.id, name_var)),
+         '_parse_qs: L = retval.get(name, None)')
+    L, D = tl.id, vl.func.value.id
+    need(isinstance(rest[1], ast.If) and not rest[1].orelse and U(rest[1].test) == '%s is None' % L and len(rest[1].body) == 1
+         and U(rest[1].body[0]) in ('%s = %s[%s] = []' % (L, D, name_var), '%s[%s] = %s = []' % (D, name_var, L)),
+         '_parse_qs: if L is None: L = retval[name] = []')
+    need(U(rest[2]) == '%s.append(%s)' % (L, value_var), '_parse_qs: L.append(value)')
+    rets = [n for n in body if isinstance(n, ast.Return)]
+    need(len(rets) == 1 and getattr(rets[0].value, 'id', None) == D, '_parse_qs: return retval')
+    return sorted(ord(x) for x in seps), '%s %d' % (idiom, ord(cut)), (ord(P1), ord(S1))
 
 
 def generate(repo):
@@ -402,6 +557,7 @@ def generate(repo):
     sdo = find_def(cls.body, 'simple_dict_to_object')
     ots = find_def(cls.body, 'object_to_simple_dict')
     natural = tr_sort(mod, sdo)
+    natkey_conv = tr_natural_key(mod) or 'conv_slice (* unused: the loop does not sort with _natural_key *)'
     rej, app = tr_strict(sdo)
     empty_in = tr_empty_in(sdo)
     empty_out, fmt = tr_flatten_consts(ots)
@@ -419,8 +575,9 @@ def generate(repo):
     b = lambda x: 'true' if x else 'false'
     out = '''(** GENERATED by harness/translate/flatkeys.py from spyne/protocol/dictdoc/simple.py,
     spyne/model/complex.py and spyne/server/wsgi.py -- do not edit. *)
-From SpyneV Require Import Base.Prelude C03.Model.
+From SpyneV Require Import Base.Prelude C03.Model C03.SourceIdioms.
 
+(** the parse tree of the pattern of RE_HTTP_ARRAY_INDEX (respellings of one regex give one tree) *)
 Definition src_re_array_index : text := %s.
 Definition src_sort_natural : bool := %s.
 Definition src_strict_reject (nidx n : Z) : bool := nidx %s n.
@@ -432,17 +589,20 @@ Definition src_hier_delim_default : text := %s.
 Definition src_strict_arrays_default : bool := %s.
 Definition src_sti_per_branch : bool := %s.
 Definition src_qs_separators : list Z := %s.
-Definition src_qs_equals : Z := %d.
+(** how one pair is cut into name and value *)
+Definition src_qs_cut : text -> text * option text := %s.
 Definition src_qs_plus : Z * Z := (%d, %d).
 Definition src_idxmap_keeps_list : bool := %s.
+(** _natural_key, from the list RE.split returns to the sort key *)
+Definition src_natural_key_conv : list text -> list (text + Z) := %s.
 Definition src_date_header_plain : bool := %s.
 Definition src_header_date_format : text := %s.
 Definition src_weekday : list text := %s.
 Definition src_month : list text := %s.
 
-%s''' % (gtext(pattern), b(natural), rej, app, gtext(empty_in), gtext(empty_out), gtext(fmt),
+%s''' % (gtext(regex_ast(pattern)), b(natural), rej, app, gtext(empty_in), gtext(empty_out), gtext(fmt),
          gtext(defaults['hier_delim'].value), b(defaults['strict_arrays'].value), b(per_branch),
-         '[' + '; '.join(str(s) for s in seps) + ']', eq, plus[0], plus[1], b(keeps_list), b(date_plain), gtext(hfmt),
+         '[' + '; '.join(str(s) for s in seps) + ']', eq, plus[0], plus[1], b(keeps_list), natkey_conv, b(date_plain), gtext(hfmt),
          '[' + '; '.join(gtext(x) for x in wk) + ']', '[' + '; '.join(gtext(x) for x in mon) + ']',
          tr_s2cmi(find_def(mod.body, '_s2cmi')))
     return {'FlatKeys.v': out}
